@@ -15,8 +15,10 @@ this file is checked, so the instantiated theorems below are statements about th
 
 Part 1 (generic) holds for **every** layout environment, in particular for every well-formed one (`WF`, decidable);
 no hypothesis on the environment is needed.  Part 2 instantiates: the translated environment is well-formed and conforms
-to the JVMS tables of `FeatherModel/Spec/JvmsRaw.lean`, except for three defects which are stated as `_witness`
-theorems next to `_partial` theorems on the domain that excludes them.
+to the JVMS tables of `FeatherModel/Spec/JvmsRaw.lean`, except for one open defect (constant-pool accounting of long and
+double entries) which is stated as `_witness` theorems next to a `_partial` theorem on the domain that excludes it.
+Two former defects (NestMembers `attribute_length`, MethodParameters `parameters_count`) were repaired in /repo (commits
+5d79841, 94d3d58); their former witnesses are kept as `_regression` theorems over the regenerated tables.
 -/
 
 namespace Thm.C20
@@ -112,22 +114,16 @@ theorem attr_def_check :
      | some (.enum _ _ .u16 vs _) => vs == attrVariants
      | _ => false) = true := by decide +kernel
 
-theorem attr_shapes_check :
-    attrVariants.all (fun v => v.guard == some (jstr "NestMembers") || attrLenShape v) = true := by decide +kernel
+theorem attr_shapes_check : attrVariants.all attrLenShape = true := by decide +kernel
 
-/-- **attribute_length (partial: every attribute kind except NestMembers).**  For every value of every other variant of
-`AttributeInfo` that `_write` serialises (total `_len()` below 4 GiB), the u4 written after `attribute_name_index` is
-exactly the number of bytes that follow it in the attribute — the JVMS meaning of `attribute_length`. -/
-theorem attribute_length_partial (k : Nat) (v : Variant) (fs : List Val) (b : Bytes)
-    (hv : attrVariants[k]? = some v) (hn : v.guard ≠ some (jstr "NestMembers"))
+/-- **attribute_length (full strength: every attribute kind).**  For every value of every variant of `AttributeInfo`
+that `_write` serialises (total `_len()` below 4 GiB), the u4 written after `attribute_name_index` is exactly the
+number of bytes that follow it in the attribute — the JVMS meaning of `attribute_length`. -/
+theorem attribute_length (k : Nat) (v : Variant) (fs : List Val) (b : Bytes)
+    (hv : attrVariants[k]? = some v)
     (hw : writeV genv attrTy (.node k fs) = some b) (hl : lenV genv attrTy (.node k fs) < 4294967296) :
     attrFramed b = true := by
-  have hshape : attrLenShape v = true := by
-    have := List.all_eq_true.mp attr_shapes_check v (List.mem_of_getElem? hv)
-    simp only [Bool.or_eq_true, beq_iff_eq] at this
-    rcases this with h | h
-    · exact absurd h hn
-    · exact h
+  have hshape : attrLenShape v = true := List.all_eq_true.mp attr_shapes_check v (List.mem_of_getElem? hv)
   have hdef := attr_def_check
   split at hdef
   · rename_i nm tn vs fb hd
@@ -136,35 +132,33 @@ theorem attribute_length_partial (k : Nat) (v : Variant) (fs : List Val) (b : By
     exact attrFramed_of_shape hd hv hshape hw hl
   · cases hdef
 
-/-- **NestMembers: `attribute_length` is written as `2·n` instead of `2 + 2·n`** (the `number_of_classes` item is not
-counted): one class ⇒ length 2 is written in front of a 4-byte body. -/
-theorem attribute_length_witness :
+/-- regression (was `attribute_length_witness` before /repo 5d79841): NestMembers with one class is written with
+`attribute_length` 4 = 2 + 2·1 in front of its 4-byte body (it used to be 2) -/
+theorem attribute_length_nestmembers_regression :
     (attrVariants[25]?).map (·.guard) = some (some (jstr "NestMembers")) ∧
-    writeV genv attrTy (.node 25 [.num 1, .list [.num 7]]) = some [0, 1, 0, 0, 0, 2, 0, 1, 0, 7] ∧
-    lenV genv attrTy (.node 25 [.num 1, .list [.num 7]]) < 4294967296 ∧
-    attrFramed [0, 1, 0, 0, 0, 2, 0, 1, 0, 7] = false := by
+    writeV genv attrTy (.node 25 [.num 1, .list [.num 7]]) = some [0, 1, 0, 0, 0, 4, 0, 1, 0, 7] ∧
+    attrFramed [0, 1, 0, 0, 0, 4, 0, 1, 0, 7] = true ∧ attrFramed [0, 1, 0, 0, 0, 2, 0, 1, 0, 7] = false := by
   refine ⟨by decide +kernel, by decide +kernel, by decide +kernel, by decide +kernel⟩
 
 /-! ### conformance with the JVMS tables (item names, widths, count widths) -/
 
-/-- **layouts = JVMS tables (partial: everything except the MethodParameters attribute).**  Every translated struct and
-every variant of every translated enum puts on the wire exactly the items the JVMS lists — same names, same order, same
-widths, every table with the JVMS width of its count item; attribute variants are guarded by the attribute name they are
-called after; `AttributeInfo` has a u2 tag. -/
-theorem layouts_jvms_partial :
-    Gen.RawLayouts.defs.all (defConformsX Gen.RawLayouts.nameCodes [jstr "MethodParameters"]) = true := by
+/-- **layouts = JVMS tables (full strength).**  Every translated struct and every variant of every translated enum puts
+on the wire exactly the items the JVMS lists — same names, same order, same widths, every table with the JVMS width of
+its count item; attribute variants are guarded by the attribute name they are called after; `AttributeInfo` has a u2
+tag.  (What the tables cannot say — that `constant_pool_count` counts slots, not entries — is `pool_count_partial`.) -/
+theorem layouts_jvms : Gen.RawLayouts.defs.all (defConforms Gen.RawLayouts.nameCodes) = true := by
   decide +kernel
 
 /-- every predefined attribute of the JVMS table has a variant -/
 theorem attributes_covered : attrsCovered attrVariants = true := by decide +kernel
 
-/-- **MethodParameters: `parameters_count` is a u2 in the crate, a u1 in the JVMS (§4.7.24).** -/
-theorem method_parameters_count_witness :
+/-- regression (was `method_parameters_count_witness` before /repo 94d3d58): `parameters_count` of MethodParameters is
+a u1, as in JVMS §4.7.24 -/
+theorem method_parameters_count_regression :
     ∃ v ∈ attrVariants, v.guard = some (jstr "MethodParameters") ∧
-      attrItems Gen.RawLayouts.nameCodes v = [.tbl (jstr "parameters") .u16 (.s (jstr "MethodParametersEntry"))] ∧
-      assoc (jstr "MethodParameters") attrs = some [.tbl (jstr "parameters") .u8 (.s (jstr "MethodParametersEntry"))] ∧
-      Gen.RawLayouts.defs.all (defConforms Gen.RawLayouts.nameCodes) = false := by
-  refine ⟨attrVariants[20]!, by decide +kernel, by decide +kernel, by decide +kernel, by decide +kernel, by decide +kernel⟩
+      attrItems Gen.RawLayouts.nameCodes v = [.tbl (jstr "parameters") .u8 (.s (jstr "MethodParametersEntry"))] ∧
+      assoc (jstr "MethodParameters") attrs = some (attrItems Gen.RawLayouts.nameCodes v) := by
+  refine ⟨attrVariants[20]!, by decide +kernel, by decide +kernel, by decide +kernel, by decide +kernel⟩
 
 /-! ### constant_pool_count -/
 
@@ -222,19 +216,19 @@ theorem pool_read_witness :
       33, 0, 0, 0, 0, 0, 0, 0, 0, 0, 0, 0, 0] = .err := by
   refine ⟨by decide +kernel, by decide +kernel⟩
 
-/-! ### the NestMembers and MethodParameters defects seen by a JVMS reader, and non-vacuity -/
+/-! ### the repaired NestMembers and MethodParameters defects seen by a JVMS reader, and non-vacuity -/
 
-/-- witness classes of the NestMembers and MethodParameters defects: both are in the round-trip domain, are written
-without panic, and the output is not a well-framed class file -/
-theorem jvms_frame_witness :
+/-- regression (was `jvms_frame_witness`): the former witness classes of the NestMembers and MethodParameters defects are
+in the round-trip domain and their output is a well-framed class file -/
+theorem jvms_frame_regression :
     fitsV genv none [] classFileTy (classOf [utf8Entry "NestMembers"] [] [.node 25 [.num 1, .list [.num 1]]]) = true ∧
     writes (classOf [utf8Entry "NestMembers"] [] [.node 25 [.num 1, .list [.num 1]]])
-      (fun b => !Walk.classFile false b) = true ∧
+      (fun b => Walk.classFile true b) = true ∧
     fitsV genv none [] classFileTy (classOf [utf8Entry "MethodParameters"]
       [.node 0 [.num 0, .num 0, .num 0, .list [.node 20 [.num 1, .list []]]]] []) = true ∧
     writes (classOf [utf8Entry "MethodParameters"]
       [.node 0 [.num 0, .num 0, .num 0, .list [.node 20 [.num 1, .list []]]]] [])
-      (fun b => !Walk.classFile false b) = true := by
+      (fun b => Walk.classFile true b) = true := by
   refine ⟨by decide +kernel, by decide +kernel, by decide +kernel, by decide +kernel⟩
 
 /-- a class with a method carrying `Code` (with a nested `LineNumberTable`) and `Exceptions`: used by the examples -/
